@@ -1,4 +1,6 @@
 import SaphyrModel.Driver.Codec
+import SaphyrModel.Lookup
+import SaphyrModel.Encoding
 import SaphyrModel.Grammar
 import SaphyrModel.Spec.Positions
 import SaphyrModel.Spec.CoreSchema
@@ -238,6 +240,55 @@ def runCore (hex : String) : String :=
         | some f => s!"float:{showFloat f}"
         | none => "str"
 
+def optNode (marked : Bool) : Option Node → String
+  | none => "-"
+  | some n => ";".intercalate (showNode marked n)
+
+/-- `get <nodekind> <mode> <probe> <intidx|-> <text>`: the lookups of `Lookup.lean` on the first
+    document. The hash is the constant function: by `C20.hashed_lookup_is_lookup` every hash that
+    honours the contract gives the same answers. -/
+def runGet (nk mode probe idx hex : String) : String :=
+  let marked := nk == "m" || nk == "mo"
+  match parserFor "str" 128 false (decodeHex hex) with
+  | .error _ => "LOADERR"
+  | .ok p =>
+    match load true (4 * p.toks.length + 64) ⟨Api.init p, []⟩ with
+    | .err _ => "LOADERR"
+    | .panic x => s!"PANIC {repr x}"
+    | .ok s =>
+      match foldEvents { marked, early := mode == "e" } {} s.out.reverse with
+      | .panic x => s!"PANIC {repr x}"
+      | .ok st =>
+        match st.docs with
+        | [] => "NODOC"
+        | d :: _ =>
+          let k := decodeHex probe
+          let h : Node → Nat := fun _ => 0
+          let get := optNode marked (asMappingGet h d k)
+          let contains := containsMappingKey h d k
+          let index := match indexStr h d k with | none => "PANIC" | some n => optNode marked (some n)
+          let explicit := match d with | .map .. => optNode marked (getExplicit d k) | _ => "-"
+          let iget := match idx.toNat? with
+            | none => "-"
+            | some i =>
+              let byIndex := match indexInt d i with | none => "PANIC" | some n => optNode marked (some n)
+              let byGet := match d with | .seq .. => optNode marked (asSequenceGet d i) | _ => "-"
+              s!"{byIndex}|{byGet}"
+          s!"get={get} contains={contains} index={index} explicit={explicit} int={iget}"
+
+def hexByte (a b : Char) : Nat := hexVal a * 16 + hexVal b
+def decodeBytes : List Char → List Nat
+  | a :: b :: rest => hexByte a b :: decodeBytes rest
+  | _ => []
+
+/-- `snf <bytes>`: `detect_utf16_endianness` (the sniffing used when there is no BOM) and the
+    model's overall choice `detect` -/
+def runSnf (hex : String) : String :=
+  let b := decodeBytes hex.toList
+  let name : Encoding.Enc → String
+    | .utf8 => "UTF-8" | .utf16le => "UTF-16LE" | .utf16be => "UTF-16BE"
+  s!"sniff={name (Encoding.detectUtf16 b)} detect={name (Encoding.detect b)}"
+
 def runLine (line : String) : String :=
   match line.trimAscii.toString.splitOn " " with
   | ["tok", kind, cap, hex] => runTok kind cap hex
@@ -265,6 +316,9 @@ def runLine (line : String) : String :=
     | none => "bad-tree"
   | ["cls", cp] => runCls cp
   | "gram" :: rest => runGram rest
+  | ["get", nk, mode, probe, idx, hex] => runGet nk mode probe idx hex
+  | ["snf", h] => runSnf h
+  | ["snf"] => runSnf ""
   | ["core", h] => runCore h
   | ["core"] => runCore ""
   | "pos" :: hex :: rest => runPos hex rest
